@@ -46,6 +46,13 @@ Proof. exact frame. Qed.
 Theorem C04_heavy_subtree_table : forallb (ok_all_flags keep_heavy) pairs = true.
 Proof. vm_compute. reflexivity. Qed.
 
+(* generated obligation (PARTIAL: two other storage orders, not all permutations): for every template
+   x dihedral x terminus flags the moved set is the same set when residue.atoms and every bond list
+   are stored in reverse order and in alphabetical (id) order instead of template order *)
+Theorem C04_moved_set_order_table_partial :
+  forallb (fun p => order_insensitive nm (tgraph (fst p)) (let '(_, _, c, _) := snd p in c)) pairs = true.
+Proof. vm_compute. reflexivity. Qed.
+
 (* the table is not empty *)
 Example C04_nonvacuous : Nat.leb 100 (List.length pairs) = true /\ Nat.leb 20 (List.length aminos) = true.
 Proof. vm_compute. split; reflexivity. Qed.
@@ -196,3 +203,4 @@ Print Assumptions C04_debump_terminates_within.
 Print Assumptions C04_debump_net_rotation.
 Print Assumptions C04_debump_attempt_ends_at_bestangle.
 Print Assumptions C04_debump_nonvacuous.
+Print Assumptions C04_moved_set_order_table_partial.
